@@ -1,6 +1,313 @@
 // C16 - a record is released only after its whole batch is validated, with its verdict.
 //
-// `Batcher` is private to `protocol::context`; the case code lives in the H3 hook body
-// (`h3_context.rs`, module `crate::protocol::context::ipa_verif_h3`).
+// `Batcher` is private to `protocol::context`; the case code for the batcher itself lives in the
+// H3 hook body (`h3_context.rs`, module `crate::protocol::context::ipa_verif_h3`). The sub-check
+// `real_contexts` below drives the two real callers on top of it - `DZKPUpgraded::validate_record`
+// and the MAC context's `validate_record` - through TestWorld (added after seeded change C16-2,
+// which sits in `dzkp_malicious.rs`, above the batcher).
 
-pub use crate::protocol::context::ipa_verif_h3::{LEVEL, subs};
+pub use crate::protocol::context::ipa_verif_h3::LEVEL;
+
+pub fn subs(env: &super::common::Env) -> Vec<super::common::Sub> {
+    #[allow(unused_mut)]
+    let mut v = crate::protocol::context::ipa_verif_h3::subs(env);
+    #[cfg(all(descriptive_gate, not(feature = "shuttle")))]
+    v.push(real::sub());
+    v
+}
+
+#[cfg(all(descriptive_gate, not(feature = "shuttle")))]
+mod real {
+    use std::{
+        panic::AssertUnwindSafe,
+        sync::{
+            Arc, Mutex,
+            atomic::{AtomicBool, Ordering},
+        },
+        time::Duration,
+    };
+
+    use futures::{FutureExt, StreamExt, future::join_all};
+    use serde_json::json;
+
+    use super::super::common::*;
+    use crate::{
+        error::Error,
+        ff::{Fp31, boolean::Boolean},
+        helpers::TotalRecords,
+        protocol::{
+            RecordId,
+            basics::SecureMul,
+            context::{
+                Context, DZKPContext, MaliciousContext, TEST_DZKP_STEPS, UpgradableContext, UpgradedContext, Validator,
+                dzkp_validator::DZKPValidator, upgrade::Upgradable,
+            },
+        },
+        secret_sharing::{IntoShares, replicated::semi_honest::AdditiveShare as Replicated},
+        test_fixture::{TestWorld, TestWorldConfig},
+    };
+
+    #[derive(Clone, Debug)]
+    struct Plan {
+        dzkp: bool,
+        n: usize,
+        rpb: usize,
+        /// multiplications of record i before it asks for validation (0 is allowed)
+        mults: Vec<usize>,
+        /// [helper][record]: yields before the record starts
+        delay: [Vec<u8>; 3],
+        /// record ids validated once more after everything is done
+        misuse: Vec<usize>,
+        seed: u64,
+    }
+
+    #[derive(Default)]
+    struct Obs {
+        /// first observation that contradicts the property, per helper
+        bad: Vec<(String, String)>,
+    }
+
+    type Outcome = Result<Vec<Result<(), String>>, String>;
+
+    async fn helper_dzkp(ctx: MaliciousContext<'_>, h: usize, plan: &Plan, obs: &Mutex<Obs>, a: Replicated<Boolean>, b: Replicated<Boolean>) -> (Outcome, Vec<(usize, String)>) {
+        let n = plan.n;
+        let requested: Vec<AtomicBool> = (0..n).map(|_| AtomicBool::new(false)).collect();
+        // only the records 0..prefix multiply (a channel must see every record of its total), the
+        // validator covers all n records
+        let prefix = plan.mults.iter().take_while(|m| **m > 0).count();
+        let mut v = ctx.dzkp_validator(TEST_DZKP_STEPS, plan.rpb);
+        v.set_total_records(TotalRecords::specified(n).unwrap());
+        let m = v.context();
+        let futs = (0..n).map(|i| {
+            let (m, a, b, requested) = (m.clone(), &a, &b, &requested);
+            async move {
+                for _ in 0..plan.delay[h][i] {
+                    tokio::task::yield_now().await;
+                }
+                let rid = RecordId::from(i);
+                for k in 0..plan.mults[i] {
+                    a.multiply(b, m.narrow(&format!("c16mul{k}")).set_total_records(TotalRecords::specified(prefix).unwrap()), rid).await.map_err(|e| format!("{e:?}"))?;
+                }
+                requested[i].store(true, Ordering::SeqCst);
+                let r = m.validate_record(rid).await;
+                let batch = i / plan.rpb;
+                let late: Vec<usize> = (batch * plan.rpb..((batch + 1) * plan.rpb).min(n)).filter(|j| !requested[*j].load(Ordering::SeqCst)).collect();
+                if !late.is_empty() {
+                    obs.lock().unwrap().bad.push((
+                        "released-before-batch-complete:dzkp".into(),
+                        format!("helper {h}: the wait for record {i} completed with {r:?} although record(s) {late:?} of its batch had not requested validation yet"),
+                    ));
+                }
+                r.map_err(|e| format!("{e:?}"))
+            }
+        });
+        let res: Vec<Result<(), String>> = join_all(futs).await;
+        // misuse, once everything has been validated
+        let mut mis = vec![];
+        for &x in &plan.misuse {
+            let r = AssertUnwindSafe(m.validate_record(RecordId::from(x))).catch_unwind().await;
+            match r {
+                Ok(Ok(())) => mis.push((x, "Ok(())".to_string())),
+                Ok(Err(_)) | Err(_) => {}
+            }
+        }
+        let _ = take_last_panic();
+        let _ = catch(AssertUnwindSafe(move || {
+            drop(m);
+            drop(v);
+        }));
+        (Ok(res), mis)
+    }
+
+    async fn helper_mac(ctx: MaliciousContext<'_>, h: usize, plan: &Plan, obs: &Mutex<Obs>, a: Replicated<Fp31>, b: Replicated<Fp31>) -> (Outcome, Vec<(usize, String)>) {
+        let n = plan.n;
+        let requested: Vec<AtomicBool> = (0..n).map(|_| AtomicBool::new(false)).collect();
+        let ctx = ctx.set_total_records(TotalRecords::specified(n).unwrap());
+        let v = ctx.validator::<Fp31>();
+        let m = v.context();
+        let futs = (0..n).map(|i| {
+            let (m, a, b, requested) = (m.clone(), a.clone(), b.clone(), &requested);
+            async move {
+                for _ in 0..plan.delay[h][i] {
+                    tokio::task::yield_now().await;
+                }
+                let rid = RecordId::from(i);
+                if plan.mults[i] > 0 {
+                    let (a, b) = (a, b).upgrade(m.clone(), rid).await.map_err(|e| format!("{e:?}"))?;
+                    for k in 0..plan.mults[i] {
+                        a.multiply(&b, m.narrow(&format!("c16mul{k}")), rid).await.map_err(|e| format!("{e:?}"))?;
+                    }
+                }
+                requested[i].store(true, Ordering::SeqCst);
+                let r = m.validate_record(rid).await;
+                let batch = i / plan.rpb;
+                let late: Vec<usize> = (batch * plan.rpb..((batch + 1) * plan.rpb).min(n)).filter(|j| !requested[*j].load(Ordering::SeqCst)).collect();
+                if !late.is_empty() {
+                    obs.lock().unwrap().bad.push((
+                        "released-before-batch-complete:mac".into(),
+                        format!("helper {h}: the wait for record {i} completed with {r:?} although record(s) {late:?} of its batch had not requested validation yet"),
+                    ));
+                }
+                r.map_err(|e| format!("{e:?}"))
+            }
+        });
+        let res: Vec<Result<(), String>> = join_all(futs).await;
+        let mut mis = vec![];
+        for &x in &plan.misuse {
+            let r = AssertUnwindSafe(m.validate_record(RecordId::from(x))).catch_unwind().await;
+            match r {
+                Ok(Ok(())) => mis.push((x, "Ok(())".to_string())),
+                Ok(Err(_)) | Err(_) => {}
+            }
+        }
+        let _ = take_last_panic();
+        let _ = catch(AssertUnwindSafe(move || {
+            drop(m);
+            drop(v);
+        }));
+        (Ok(res), mis)
+    }
+
+    fn run(plan: &Plan) -> (Vec<Option<(Outcome, Vec<(usize, String)>)>>, Vec<(String, String)>, bool) {
+        block_on(async {
+            let mut wc = TestWorldConfig::default();
+            wc.seed = plan.seed;
+            wc.timeout = None;
+            if !plan.dzkp {
+                // the MAC validator's batch is the gateway's active work
+                wc.gateway_config.active = plan.rpb.try_into().unwrap();
+            }
+            let world = TestWorld::new_with(&wc);
+            let obs = Mutex::new(Obs::default());
+            let mut rng = <rand::rngs::StdRng as rand::SeedableRng>::seed_from_u64(plan.seed ^ 0x16);
+            let mut out: Vec<Option<(Outcome, Vec<(usize, String)>)>> = vec![None, None, None];
+            let mut timed_out = false;
+            {
+                let ctxs = world.malicious_contexts();
+                let mut futs = futures::stream::FuturesUnordered::new();
+                if plan.dzkp {
+                    let sa: [Replicated<Boolean>; 3] = Boolean::from(true).share_with(&mut rng);
+                    let sb: [Replicated<Boolean>; 3] = Boolean::from(plan.seed & 1 == 1).share_with(&mut rng);
+                    for (h, ((ctx, a), b)) in ctxs.into_iter().zip(sa).zip(sb).enumerate() {
+                        let obs = &obs;
+                        futs.push(async move { (h, AssertUnwindSafe(helper_dzkp(ctx, h, plan, obs, a, b)).catch_unwind().await).into() }.boxed_local());
+                    }
+                } else {
+                    use crate::ff::U128Conversions;
+                    let sa: [Replicated<Fp31>; 3] = Fp31::truncate_from(7u128).share_with(&mut rng);
+                    let sb: [Replicated<Fp31>; 3] = Fp31::truncate_from(u128::from(plan.seed % 31)).share_with(&mut rng);
+                    for (h, ((ctx, a), b)) in ctxs.into_iter().zip(sa).zip(sb).enumerate() {
+                        let obs = &obs;
+                        futs.push(async move { (h, AssertUnwindSafe(helper_mac(ctx, h, plan, obs, a, b)).catch_unwind().await).into() }.boxed_local());
+                    }
+                }
+                let deadline = tokio::time::Instant::now() + Duration::from_secs(6);
+                loop {
+                    let next: Result<Option<(usize, Result<(Outcome, Vec<(usize, String)>), Box<dyn std::any::Any + Send>>)>, _> = tokio::time::timeout_at(deadline, futs.next()).await;
+                    match next {
+                        Ok(Some((h, Ok(r)))) => out[h] = Some(r),
+                        Ok(Some((h, Err(p)))) => out[h] = Some((Err(format!("panic: {}", panic_message(&p))), vec![])),
+                        Ok(None) => break,
+                        Err(_) => {
+                            timed_out = true;
+                            break;
+                        }
+                    }
+                }
+                let _ = catch(AssertUnwindSafe(move || drop(futs)));
+            }
+            let bad = std::mem::take(&mut obs.lock().unwrap().bad);
+            let _ = catch(AssertUnwindSafe(move || drop(world)));
+            (out, bad, timed_out)
+        })
+    }
+
+    fn case(_env: &Env, src: &mut Src<'_>) -> CaseResult {
+        let dzkp = src.bool();
+        let rpb = if dzkp { src.pick(&[1usize, 2, 4, 8]) } else { src.pick(&[2usize, 4, 8, 16]) };
+        let n = src.urange(1, 3 * rpb + 2).min(20);
+        // DZKP: only a prefix of the records multiplies (the same number of steps each); the others
+        // reach validate_record without having pushed anything - possibly while nothing at all is
+        // outstanding in the batcher (prefix at a batch boundary). MAC: every record multiplies.
+        let per = 1 + src.idx(2);
+        let prefix = if !dzkp {
+            n
+        } else {
+            match src.below(4) {
+                0 => n,
+                1 => 0,
+                2 => (src.idx(n / rpb + 1) * rpb).min(n),
+                _ => src.idx(n + 1),
+            }
+        };
+        let mults: Vec<usize> = (0..n).map(|i| if i < prefix { per } else { 0 }).collect();
+        let shape = src.below(4);
+        let delay: [Vec<u8>; 3] = std::array::from_fn(|_| {
+            (0..n)
+                .map(|i| match shape {
+                    0 => 0,
+                    // later records of a batch are slow: the first one of a batch arrives alone
+                    1 => (if i % rpb == 0 { 0 } else { 3 + src.below(4) }) as u8,
+                    // reverse arrival
+                    2 => (2 * (n - i)) as u8,
+                    _ => src.below(8) as u8,
+                })
+                .collect()
+        });
+        let mut misuse = vec![];
+        match src.below(4) {
+            0 => {}
+            1 => misuse.push(src.idx(n)),
+            2 => misuse.push(n + src.idx(2 * rpb + 1)),
+            _ => {
+                misuse.push(src.idx(n));
+                misuse.push(n + src.idx(rpb + 1));
+            }
+        }
+        let plan = Plan { dzkp, n, rpb, mults, delay, misuse, seed: src.seed() };
+        let kind = if dzkp { "dzkp" } else { "mac" };
+        let cj = json!({"context": kind, "records": n, "records_per_batch": rpb, "multiplications_per_record": plan.mults, "start_delays": plan.delay.iter().map(|d| d.clone()).collect::<Vec<_>>(), "validated_again_afterwards": plan.misuse, "seed": plan.seed.to_string()});
+        let mut labels = vec![format!("ctx:{kind}"), format!("rpb:{rpb}"), format!("arrival:{}", ["together", "batch-head-first", "reverse", "random"][shape as usize])];
+        if plan.mults.iter().any(|m| *m == 0) {
+            labels.push("record-without-multiplication".into());
+        }
+        if n % rpb != 0 {
+            labels.push("partial-last-batch".into());
+        }
+        let (out, bad, timed_out) = run(&plan);
+        if let Some((sig, msg)) = bad.into_iter().next() {
+            return Err(violation(sig, msg, cj));
+        }
+        if timed_out {
+            return Ok(CaseOk::new(false, &0u8, serde_json::Value::Null).label("inconclusive:timeout").labels(labels));
+        }
+        for (h, o) in out.iter().enumerate() {
+            let Some((res, mis)) = o else {
+                return Ok(CaseOk::new(false, &0u8, serde_json::Value::Null).label("inconclusive:no-outcome").labels(labels));
+            };
+            match res {
+                Err(e) => return Err(violation(format!("honest-run-failed:{kind}"), format!("helper {h}: {e}").chars().take(400).collect::<String>(), cj)),
+                Ok(v) => {
+                    if let Some((i, Err(e))) = v.iter().enumerate().find(|(_, r)| r.is_err()) {
+                        return Err(violation(format!("honest-record-rejected:{kind}"), format!("helper {h}: record {i} of an honest run was not validated: {e}").chars().take(400).collect::<String>(), cj));
+                    }
+                }
+            }
+            if let Some((x, r)) = mis.first() {
+                let what = if *x < n { "twice" } else { "beyond-total" };
+                return Err(violation(format!("misuse-not-rejected:real:{kind}:{what}"), format!("helper {h}: validate_record({x}) after all {n} records were validated returned {r} (neither an error nor a panic)"), cj));
+            }
+        }
+        if !plan.misuse.is_empty() {
+            labels.push(format!("misuse:{}", if plan.misuse.iter().any(|x| *x < n) && plan.misuse.iter().any(|x| *x >= n) { "both" } else if plan.misuse[0] < n { "twice" } else { "beyond-total" }));
+        }
+        let d = digest(&(dzkp, n, rpb, &plan.mults, &plan.delay, &plan.misuse));
+        Ok(CaseOk { nontrivial: n > rpb || plan.mults.iter().any(|m| *m == 0), digest: d, labels, sample: cj })
+    }
+
+    pub fn sub() -> Sub {
+        Sub::random("real_contexts", 200, 1500, 40_000, case,
+            "the real callers of the batcher under TestWorld: DZKPUpgraded::validate_record (Boolean multiplications, 1/2/4/8 records per batch) and the MAC context's validate_record (Fp31, batch = active work), 1..20 records; under DZKP only a generated prefix of the records multiplies (1-2 steps each; prefix = all, none, a whole number of batches, random), so the remaining records reach validate_record without having pushed anything - at a batch boundary while nothing at all is outstanding, arrival {together, batch head first, reverse, random} per helper; oracle: when the wait for record i returns, every record of its batch has requested validation; honest runs validate; validating a record again afterwards or a record beyond the total is an error or a panic, never Ok; non-trivial = more than one batch or a record without multiplication")
+        .shrink_iters(40)
+    }
+}
